@@ -71,7 +71,10 @@ class C17(Prop):
                     viol.append({"oracle": "O-TABLES", "signature": "tables-accessor-before-solve-raises:" + out["exc_type"],
                                  "detail": {"f": op["f"], "msg": out.get("msg")}})
             if op["op"] == "class_duals" and out.get("status") == "ok" and not ok_solve and out.get("value"):
-                if op.get("before"):
+                # (a table that holds only structural zeros - cells without a constraint, e.g. the 1x1 table of a
+                # single sample after the user generated the class constraints by hand - fabricates nothing)
+                from sim.props.c16 import _has_nonzero
+                if op.get("before") and _has_nonzero(out.get("value")):
                     viol.append({"oracle": "O-TABLES", "signature": "table-of-numbers-before-any-solve",
                                  "detail": {"f": op["f"]}})
         reach = r.get("reach") or {}
